@@ -1151,13 +1151,13 @@ fn stress(d: &Driver, seed: u64, threads: usize, secs: u64) -> Value {
     while t0.elapsed() < Duration::from_secs(secs) { std::thread::sleep(Duration::from_millis(100)); }
     stop.store(true, Ordering::Relaxed);
     // every request in flight must come back: a read-only call that meets an open block legitimately
-    // waits up to five seconds; beyond twelve seconds the request is stuck
+    // waits up to five seconds, and an estimate is some twenty-five such simulations (under load tens of seconds); beyond two minutes the request is stuck
     let grace = Instant::now();
     let mut stuck: Vec<String> = vec![];
     loop {
         let busy: Vec<(String, f64)> = inflight.iter().filter_map(|s| s.lock().unwrap().clone()).map(|(m, t)| (m, t.elapsed().as_secs_f64())).collect();
         if busy.is_empty() { break; }
-        if busy.iter().any(|(_, t)| *t > 30.0) { stuck = busy.iter().filter(|(_, t)| *t > 30.0).map(|(m, t)| format!("{} ({:.0} s)", m, t)).collect(); break; }
+        if busy.iter().any(|(_, t)| *t > 120.0) { stuck = busy.iter().filter(|(_, t)| *t > 120.0).map(|(m, t)| format!("{} ({:.0} s)", m, t)).collect(); break; }
         if grace.elapsed() > Duration::from_secs(40) { stuck = busy.iter().map(|(m, t)| format!("{} ({:.0} s)", m, t)).collect(); break; }
         std::thread::sleep(Duration::from_millis(100));
     }
@@ -1211,11 +1211,11 @@ fn stress_race(d: &Driver, threads: usize, secs: u64) -> Value {
     }
     let t0 = Instant::now();
     let mut stuck: Vec<String> = vec![];
-    while t0.elapsed() < Duration::from_secs(secs + 36) {
+    while t0.elapsed() < Duration::from_secs(secs + 126) {
         std::thread::sleep(Duration::from_millis(100));
         if t0.elapsed() >= Duration::from_secs(secs) { stop.store(true, Ordering::Relaxed); }
         let busy: Vec<(String, f64)> = inflight.iter().filter_map(|s| s.lock().unwrap().clone()).map(|(m, t)| (m, t.elapsed().as_secs_f64())).collect();
-        if busy.iter().any(|(_, t)| *t > 30.0) { stuck = busy.iter().filter(|(_, t)| *t > 30.0).map(|(m, t)| format!("{} ({:.0} s)", m, t)).collect(); break; }
+        if busy.iter().any(|(_, t)| *t > 120.0) { stuck = busy.iter().filter(|(_, t)| *t > 120.0).map(|(m, t)| format!("{} ({:.0} s)", m, t)).collect(); break; }
         if stop.load(Ordering::Relaxed) && busy.is_empty() { break; }
     }
     stop.store(true, Ordering::Relaxed);
@@ -1401,11 +1401,11 @@ pub fn run(out: &Path, seed: u64, thorough: bool) -> R<()> {
     let stress_report = if violations.is_empty() {
         let r = if thorough { stress(&d, seed, 8, 30) } else { stress(&d, seed, 4, 3) };
         if r["stalled"].as_bool().unwrap_or(false) {
-            failures.push(json!({"what": format!("concurrent stress: requests never came back (blocked for more than 30 s): {}", r["stuck_requests"]), "case": r.clone()}));
+            failures.push(json!({"what": format!("concurrent stress: requests never came back (blocked for more than 120 s): {}", r["stuck_requests"]), "case": r.clone()}));
         }
         let r2 = stress_race(&d, 4, if thorough { 10 } else { 2 });
         if r2["stalled"].as_bool().unwrap_or(false) {
-            failures.push(json!({"what": format!("concurrent stress (one thread finalising blocks, the others reading without a block number): requests never came back (blocked for more than 30 s): {}", r2["stuck_requests"]), "case": r2.clone()}));
+            failures.push(json!({"what": format!("concurrent stress (one thread finalising blocks, the others reading without a block number): requests never came back (blocked for more than 120 s): {}", r2["stuck_requests"]), "case": r2.clone()}));
         }
         json!({"mixed": r, "race": r2})
     } else { json!({"skipped": "undisciplined programs present"}) };
